@@ -734,7 +734,7 @@ func (it *Interp) execNode(n Node, e *env, b *strings.Builder) error {
 			if err != nil {
 				return err
 			}
-			if !(v.K == KInt || v.K == KStr || v.K == KBool) {
+			if !(v.K == KInt || v.K == KStr || v.K == KBool || v.K == KNil) {
 				return ErrSkip
 			}
 			now = append(now, v)
